@@ -380,7 +380,10 @@ def gen_family(fam, seed, count, workdir, nshards):
     procs = []
     # the deterministic dispatch table is enumerated, not sampled: the quick tier takes a window
     # of it that moves with the seed, the thorough tier asks for more entries than it has (= all)
-    base = (seed * count) % 39903 if fam == "table" and count < 39903 else 0
+    det = {"table": 39903, "exh": 1213568}   # sizes of the deterministic enumerations (gen prints them)
+    base = (seed * count * 7919) % det[fam] if fam in det and count < det[fam] else 0
+    if fam in det and base + count > det[fam]:
+        base = det[fam] - count
     for s in range(nshards):
         first = base + s * per
         if first - base >= count:
